@@ -1,7 +1,7 @@
 (* C08 -- point-in-time restore copies an exact, valid prefix or nothing.
    Only statements closed by [exact]; proofs live in proofs/PitrProofs.v.
    The checksum function is universally quantified ([crc]). *)
-From KS Require Import lib.Base lib.PitrWire model.Pitr proofs.PitrProofs proofs.PitrBatchProofs proofs.PitrCopyProofs proofs.PitrCompleteProofs.
+From KS Require Import lib.Base lib.PitrWire model.Pitr proofs.PitrProofs proofs.PitrBatchProofs proofs.PitrCopyProofs proofs.PitrCompleteProofs proofs.PitrRecordsProofs.
 Open Scope Z_scope.
 
 (* (3) a failed restore leaves no object under the target prefix (space 1) that did
@@ -114,6 +114,56 @@ Theorem C08_prefix : forall crc s0 faults T parts summ w',
   restore_spec crc s0 T parts = Some (w_objs w').
 Proof. exact restore_complete. Qed.
 Print Assumptions C08_prefix.
+
+(* (1e) the prefix clause in the property's own words, per partition, for the segments
+       the restore specification writes for that partition IN THE ORDER IT WRITES THEM
+       (= ascending base offset of the sorted source segments; by C08_prefix these are
+       exactly the objects a successful restore leaves): for every partition whose
+       source segments [segs] (sorted by base offset, objects present and well formed
+       with batch lists [bss]) have last candidate lc, the records held by the written
+       segment objects, concatenated in that order, are the records of the source
+       segments before lc followed by the records of segment lc up to (excluding) its
+       first record with ts > T -- each record the same (offset, timestamp, bytes)
+       triple as in the source, so byte-equal and, being a prefix of the source's record
+       list, offset-contiguous whenever the source is.
+       PARTIAL, what is missing: (i) re-reading the final store -- that listing the
+       target partition's segment objects sorted by key yields these segments in this
+       order needs distinct ascending target bases (unique source keys, and key base =
+       base offset of the segment's first batch for the rewritten one), not mechanised;
+       (ii) [seg_records] says the body IS a concatenation of batches holding those
+       records (the decomposition the restore produced), not that a frame parser
+       recovers it (needs batchLength < 2^32 for the rewritten batches);
+       (iii) [plan_defined]: build_plan does not fail at the last candidate -- true
+       whenever the restore succeeded. *)
+Theorem C08_prefix_records_partial : forall crc s0 p T segs bss lc,
+  Forall2 (src_ok s0 p) segs bss -> segs <> [] -> lc = last_candidate segs T 0 ->
+  plan_defined crc s0 p T (nth lc segs (mkSeg 0 0 0 0)) ->
+  exists rss, Forall2 seg_records (map a_seg (plan_list crc s0 p segs 0 lc T)) rss /\
+    concat rss = concat (map all_recs (firstn lc bss)) ++ take_while (ts_ok T) (all_recs (nth lc bss [])).
+Proof.
+  intros crc s0 p T segs bss lc HF Hne -> Hd.
+  pose proof (last_candidate_lt T segs 0 Hne) as Hr.
+  pose proof (plan_list_records crc s0 p T segs bss 0 (last_candidate segs T 0) HF Hr) as H.
+  rewrite Nat.sub_0_r in H. exact (H Hd).
+Qed.
+Print Assumptions C08_prefix_records_partial.
+
+(* towards (i): reading back one partition's writes.  When the bases of the written
+   segments are pairwise distinct, each written segment object is found under its
+   (partition, base) key, and every segment object under a target key after the writes
+   was there before or is one of the written ones.  Still missing for the full
+   C08_prefix_records: that the bases ARE distinct and ascending (unique source keys;
+   key base = first batch's base offset for the rewritten segment) and the composition
+   over the partitions of restore_spec's fold. *)
+Theorem C08_read_back_partial : forall p arts s,
+  NoDup (map a_base arts) ->
+  (forall a, In a arts -> s_get (puts_of p arts s) (seg_key 1 p (a_base a)) = Some (a_seg a)) /\
+  (forall k v, k_space k = 1 -> k_idx k = false -> s_get (puts_of p arts s) k = Some v ->
+     s_get s k = Some v \/ exists a, In a arts /\ k = seg_key 1 p (a_base a)).
+Proof.
+  intros p arts s Hnd. split; [intros a Ha; now apply puts_get|]. intros k v H1 H2 H3. now apply (puts_only p arts s k v).
+Qed.
+Print Assumptions C08_read_back_partial.
 
 (* non-vacuity: a two-record batch (timestamps 1000, 1002) restored to T = 1001 is
    rewritten to one record; the fault-free run creates both target objects; a fault
